@@ -50,6 +50,8 @@ pub enum CostError {
     UnexpectedCycle,
     #[error("failed to enforce function cost")]
     EnforceWalletValueFailed(StatementIdx),
+    #[error("the program is not supported by the deprecated equation solving gas computation")]
+    UnsupportedByEquationSolver,
 }
 
 /// Helper to implement the `InvocationCostInfoProvider` for the equation generation.
@@ -197,6 +199,17 @@ pub fn calc_gas_postcost_info<ApChangeVarValue: Fn(StatementIdx) -> usize>(
     precost_gas_info: &GasInfo,
     ap_change_var_value: ApChangeVarValue,
 ) -> Result<GasInfo, CostError> {
+    // Circuits are not supported by this computation.
+    for declaration in &program.libfunc_declarations {
+        if matches!(
+            program_info.registry.get_libfunc(&declaration.id),
+            Ok(CoreConcreteLibfunc::Circuit(_))
+        ) {
+            return Err(CostError::UnsupportedByEquationSolver);
+        }
+    }
+    // Set if a libfunc requires a token usage that the pre-cost computation did not provide.
+    let missing_token_usage = std::cell::Cell::new(false);
     let mut info = calc_gas_info_inner(
         program,
         |statement_future_cost, idx, libfunc_id| {
@@ -211,7 +224,14 @@ pub fn calc_gas_postcost_info<ApChangeVarValue: Fn(StatementIdx) -> usize>(
                 &InvocationCostInfoProviderForEqGen {
                     type_sizes: &program_info.type_sizes,
                     token_usages: |token_type| {
-                        precost_gas_info.variable_values[&(idx, token_type)].into_or_panic()
+                        precost_gas_info
+                            .variable_values
+                            .get(&(idx, token_type))
+                            .and_then(|value| usize::try_from(*value).ok())
+                            .unwrap_or_else(|| {
+                                missing_token_usage.set(true);
+                                0
+                            })
                     },
                     ap_change_var_value: || ap_change_var_value(idx),
                 },
@@ -220,6 +240,9 @@ pub fn calc_gas_postcost_info<ApChangeVarValue: Fn(StatementIdx) -> usize>(
         function_set_costs,
         &program_info.registry,
     )?;
+    if missing_token_usage.get() {
+        return Err(CostError::UnsupportedByEquationSolver);
+    }
     // Make `refund` libfuncs return 0 valued variables for all tokens.
     for (i, statement) in program.statements.iter().enumerate() {
         let Statement::Invocation(invocation) = statement else {
